@@ -150,6 +150,12 @@ struct World {
   uint64_t heap_initial_total = 0;
   uint64_t largest_req = 0;
   std::vector<std::pair<uint64_t, uint64_t>> gc_trace;  // (total, live) per collection (bounded)
+  uint64_t growth_c = 0;       // 0: growth bound not asserted
+  uint64_t segments_overhead(sexp c) {
+    uint64_t n = 0;
+    for (sexp_heap h = sexp_context_heap(c); h; h = h->next) n += sexp_heap_align(sexp_free_chunk_size);
+    return n;
+  }
   std::set<std::string> alloc_sites_hit;
 
   // ---- scheduler shim / ticks
@@ -506,6 +512,30 @@ static void hook_gc(sexp ctx, int phase) {
       HeapStats st = walk_heap(ctx, 2, true);
       W.in_hook = false;
       W.heapchecks++;
+      if (W.violations.empty() && st.live_bytes != W.live_bytes_last) {
+        // conservation: what survives the sweep is exactly what the mark phase reached
+        char msg[200];
+        snprintf(msg, sizeof msg, "after sweep %llu bytes in %llu objects remain allocated but the mark phase reached %llu bytes (delta %lld): unreachable storage not returned to the free list",
+                 (unsigned long long)st.live_bytes, (unsigned long long)st.objects, (unsigned long long)W.live_bytes_last,
+                 (long long)st.live_bytes - (long long)W.live_bytes_last);
+        W.violate("heap:not-recycled", msg);
+      }
+      if (W.violations.empty() && st.live_bytes + st.free_bytes + W.segments_overhead(ctx) != st.total) {
+        char msg[200];
+        snprintf(msg, sizeof msg, "live %llu + free %llu + sentinels %llu != total %llu", (unsigned long long)st.live_bytes,
+                 (unsigned long long)st.free_bytes, (unsigned long long)W.segments_overhead(ctx), (unsigned long long)st.total);
+        W.violate("heap:accounting", msg);
+      }
+      if (W.growth_c && W.violations.empty()) {
+        uint64_t bound = W.growth_c * (W.live_bytes_max + 2 * W.largest_req);
+        if (bound < W.heap_initial_total) bound = W.heap_initial_total;
+        if (st.total > bound) {
+          char msg[200];
+          snprintf(msg, sizeof msg, "heap total %llu > max(initial %llu, %llu x (max live %llu + 2 x largest request %llu))", (unsigned long long)st.total,
+                   (unsigned long long)W.heap_initial_total, (unsigned long long)W.growth_c, (unsigned long long)W.live_bytes_max, (unsigned long long)W.largest_req);
+          W.violate("heap:unbounded-growth", msg);
+        }
+      }
       if (st.total > W.heap_total_max) W.heap_total_max = st.total;
       if (W.gc_trace.size() < 4096) W.gc_trace.emplace_back(st.total, W.live_bytes_last);
       if (!W.forcing)
@@ -939,6 +969,7 @@ static void configure_world(const js::Value& plan) {
     W.gc_scope_step = (int)gc->geti("scope_step", -1);
     W.heapcheck_every = (int)gc->geti("heapcheck_every", 0);
     W.poison = gc->getb("poison", true);
+    W.growth_c = gc->geti("growth_c", 0);
   }
   const js::Value* sc = plan.get("sched");
   if (sc) {
